@@ -80,6 +80,10 @@ def run(ctx):
     fsfam.judge_traces(ctx, per_case, "faulted")
     ctx.coverage["fault_traces_validated"] = nf
     ctx.coverage["cli_runs"] = cli_leg(ctx)
+    # a running agent never switches to a directory that fails the check (SIGHUP with configurations naming a directory without
+    # administrator, with a stray file, or whose only administrator's parameter set is no longer configured): Reload.tla
+    import reloadfam
+    reloadfam.run(ctx, prop="C16")
     import clifam
     clifam.replay(ctx, "C16")
     ctx.coverage["rule"] = ("every directory-content case of DirCheck (two creation orders) against Check/List/ListFull/Init; every Store "
